@@ -128,6 +128,10 @@ _md_numeral_pat = re.compile(r"^[0-9]+[.)]$")
 _md_alone_specials_pat = re.compile(r"^(-{2,}|\*{2,}|_{3,})$|^`{3,}[^`]*$|^~{3,}")
 
 
+# A line that would be read as the delimiter row of a GFM table.
+_table_delimiter_row_pat = re.compile(r"^(?=.*\|)\|?\s*:?-+:?\s*(\|\s*:?-+:?\s*)*\|?$")
+
+
 def _escape_first_word_left_alone(word: str) -> str:
     if _md_alone_specials_pat.match(word):
         if word[0] in "*_":
@@ -254,6 +258,11 @@ def wrap_paragraph_lines(
         for i, line in enumerate(lines[:-1]):
             if (len(line) - len(line.rstrip("\\"))) % 2 == 1:
                 lines[i] = line + "\\"
+        # A wrapped line that looks like the delimiter row of a table (`| - |`, `:-|-:`) below
+        # a line with a pipe would turn both into a table.
+        for i in range(1, len(lines)):
+            if "|" in lines[i - 1] and _table_delimiter_row_pat.match(lines[i]):
+                lines[i] = "\\" + lines[i]
 
     return lines
 
